@@ -77,6 +77,10 @@ def single_faults(keys, n, wide):
         for d in keys:
             if d != wide:
                 out.append(("relabel", i, d))
+                if F.POOL[d][3] is int:
+                    # unknown labels that only LOOK like an item (2000.5) or cannot be converted at all ("total")
+                    out.append(("relabel_frac", i, d))
+                    out.append(("relabel_text", i, d))
     for d in keys:
         if d != wide:
             out.append(("add_extra", d))
@@ -131,6 +135,10 @@ def apply_faults(keys, faults):
             for r in rows:
                 if r[2] == f[1] and not r[0].get("_dup"):
                     r[0][f[2]] = unknown_item(f[2])
+        elif kind in ("relabel_frac", "relabel_text"):
+            for r in rows:
+                if r[2] == f[1] and not r[0].get("_dup"):
+                    r[0][f[2]] = (float(r[0][f[2]]) + 0.5) if kind == "relabel_frac" else "total"
         elif kind == "add_extra":
             lab = dict(recs[0][0])
             lab[f[1]] = unknown_item(f[1])
